@@ -28,7 +28,8 @@ where
     }
 
     fn reset(&mut self) -> Result<()> {
-        self.pages.write().reset();
+        // The page index is left to the next write(), which truncates it (and the data
+        // region) on disk; clearing it here made that write() return early.
         self.truncate_if_needed_at(0)?;
         self.base.reset_base()
     }
